@@ -1239,7 +1239,9 @@ CONFIG["C07"] = dict(
                "jitter j creates, for every unique record the daemon does not hold, the probe of its name with start t0+j "
                "(registration_starts_probe), and with j >= 1 and a timely scheduler the probe queries for that name leave in "
                "exactly the iterations at t0+j, +250, +500 and the record is active after t0+j+750 "
-               "(registration_probe_lifecycle); after "
+               "(registration_probe_lifecycle), and the announcement leaves in the iteration at t0+j+750 and again in the one at "
+               "t0+j+1750 (registration_announced_twice, any service none of whose unique records is held, any daemon state); "
+               "after "
                "prepare_announce every unique record is active or in the probe of its name; a new probe starts at now+jitter; "
                "and the complete life cycle (three probes, nothing before, announcements at +750 and +1750 with the stated "
                "content) by kernel evaluation of the model for EVERY jitter 0..249 on a concrete registration and for a spread "
@@ -1251,9 +1253,10 @@ CONFIG["C07"] = dict(
              "probe_end_activates_records, probe_schedule_in_daemon (one probe through iter, any state), "
              "announcement_needs_active, announced_records_active and the evaluated instances (probe_lifecycle_partial); "
              "registration_starts_probe, registration_probe_lifecycle (registration -> three probes -> record active, any "
-             "state), first_announcement / second_announcement (step contracts of wakeService and RegisterResend); "
-             "missing: composing the two announcements (at +750 and +1750) with the probe schedule through iter for a "
-             "symbolic service",
+             "state), first_announcement / second_announcement (step contracts), registration_announced_twice (any service, "
+             "any daemon state, jitter >= 1: announcement in the iteration at t0+j+750 and again at t0+j+1750); missing for "
+             "the literal probe_lifecycle_full: jitter 0 in the composed theorem, 'exactly these packets and no others' "
+             "for a symbolic service (shown on the evaluated instances)",
              "the history invariant 'an active record was in the authority section of three probe queries 250 ms apart' is "
              "false of the code without a timely scheduler and for shared probes (findings D31, D33, D34): proved instead is "
              "active_only_after_probe (the probe is at least 750 ms old)",
